@@ -235,6 +235,11 @@ def run_check(modname, tier, seed, replay=None):
         for mfail in r.get("monitors", []):
             monitor_fail.append({"case": r["case"], "monitor": mfail, "impl": r.get("expect")})
 
+    global_info = None
+    if hasattr(mod, "global_checks"):
+        gfails, global_info = mod.global_checks(tier, seed)
+        monitor_fail.extend(gfails)
+
     # ---- known findings: replay committed witnesses, print the line only if it still fails
     reported_known = set()
     for mf in monitor_fail:
@@ -339,6 +344,7 @@ def run_check(modname, tier, seed, replay=None):
         "known_findings_reported": sorted(reported_known),
         "search_inputs_after_break": searched,
         "distribution": dict(sorted(tags.items())),
+        "global_checks": global_info,
         "explanation": getattr(mod, "EXPLANATION", ""),
     }
     ev = {"property_id": prop, "tier": tier, "seed": seed, "level": "proof", "coverage": cov,
